@@ -52,6 +52,18 @@ func (pq *processQueue) Next() (item processItem) {
 	return
 }
 
+// Remove takes the item with the given hash out of the queue, wherever it is
+func (pq *processQueue) Remove(hash cid.Cid) (item processItem, ok bool) {
+	old := *pq
+	for i, it := range old {
+		if it.GetHash().Equals(hash) {
+			*pq = append(old[:i:i], old[i+1:]...)
+			return it, true
+		}
+	}
+	return nil, false
+}
+
 func (pq processQueue) GetQueue() []processItem {
 	return pq
 }
